@@ -253,7 +253,7 @@ func checkC02(c *Ctx) {
 		for _, in := range instrsOf(f) {
 			if ta, ok := in.(*ssa.TypeAssert); ok && namedTypeIs(ta.AssertedType, "pkg/value", "Bool") {
 				nb++
-				R.check(ta.CommaOk, "C02.branch", fmt.Sprintf("%s:bool-assert#%d", fn, nb), u.pos(ta.Pos()), "non-boolean condition is tested and rejected", "condition is asserted *Bool without a test (non-boolean condition would panic)")
+				R.check(assertIsTested(ta), "C02.branch", fmt.Sprintf("%s:bool-assert#%d", fn, nb), u.pos(ta.Pos()), "non-boolean condition is tested and rejected", "condition is asserted *Bool without a test (non-boolean condition would panic)")
 			}
 		}
 		// later conditions only on the false edges of the first one
@@ -317,9 +317,11 @@ func checkC02(c *Ctx) {
 			if cv, ok := arg.(*ssa.Convert); ok {
 				if bo, ok := cv.X.(*ssa.BinOp); ok && bo.Op == token.ADD {
 					if k, ok := bo.Y.(*ssa.Const); ok && k.Value != nil && k.Value.Kind() == constant.Int && k.Int64() == 1 {
-						// X must be the range index (a phi / extract of the loop)
-						if _, isConst := bo.X.(*ssa.Const); !isConst {
-							okIdx = true
+						// X must be the range index itself: the value that indexes the list in this loop
+						for _, in2 := range instrsOf(f) {
+							if ia, ok := in2.(*ssa.IndexAddr); ok && ia.Index == bo.X && loopBlock(ia.Block()) {
+								okIdx = true
+							}
 						}
 					}
 				}
